@@ -139,8 +139,8 @@ Lemma search_loop_S f h v slm vol parent pi slcount saved :
             if last then ret EFileExists else ret (match v_os v with Windows => ENoSuchDir | Linux => ENotADirectory end)
         | Some (NSym link _) =>
             let slcount' := S slcount in
-            if Nat.ltb slCountMax slcount' then ret ETooManySymlinks
-            else if last && slmode_eqb slm SlLstat then ret EFileExists
+            if last && slmode_eqb slm SlLstat then ret EFileExists
+            else if Nat.ltb slCountMax slcount' then ret ETooManySymlinks
             else
               let saved' := match saved with
                             | None => if last && slmode_eqb slm SlStat then Some pi1 else None
@@ -186,8 +186,8 @@ Proof.
     destruct (get h c) as [[ch m|d k i m|link m]|]; try exact Hr.
     + destruct (pi_is_last pi1); [exact Hr|].
       destruct (check_permission m OpenLookup (v_user v)); [|exact Hr]. apply IH; assumption.
-    + destruct (Nat.ltb slCountMax (S slcount)); [exact Hr|].
-      destruct (pi_is_last pi1 && slmode_eqb slm SlLstat); [exact Hr|].
+    + destruct (pi_is_last pi1 && slmode_eqb slm SlLstat); [exact Hr|].
+      destruct (Nat.ltb slCountMax (S slcount)); [exact Hr|].
       destruct (pi_replace_part (v_os v) pi1 link) as [reset pi2]. apply IH; assumption.
 Qed.
 
@@ -228,8 +228,8 @@ Section Iter.
           | Some (NFile _ _ _ _) => if last then ret EFileExists else ret ENotADirectory
           | Some (NSym link _) =>
               let slcount' := S slcount in
-              if Nat.ltb slCountMax slcount' then ret ETooManySymlinks
-              else if last && slmode_eqb slm SlLstat then ret EFileExists
+              if last && slmode_eqb slm SlLstat then ret EFileExists
+              else if Nat.ltb slCountMax slcount' then ret ETooManySymlinks
               else
                 let saved' := match saved with
                               | None => if last && slmode_eqb slm SlStat then Some pi1 else None
